@@ -79,6 +79,25 @@ theorem lookup_sound (cfg : Cfg) (t : Table) (req : Req) (hpick : PickOK cfg.pic
       · exact htg
       · exact hpick r hne
 
+/-- **skipped_redirect_never_returned.** A target rejected by the redirect self-skip is never the answer
+(since the C13 repair b42ae83; before it a skip on the last host tried was still returned). -/
+theorem skipped_redirect_never_returned (cfg : Cfg) (t : Table) (req : Req)
+    {h : Str} {r : Route} {tg : Target} (hres : Lookup cfg t req = some (h, r, tg)) : cfg.skip tg = false := by
+  unfold Lookup at hres
+  generalize hostList cfg t req = hs at hres
+  induction hs with
+  | nil => simp [lookupHosts] at hres
+  | cons x xs ih =>
+    simp only [lookupHosts] at hres
+    split at hres
+    · exact ih hres
+    · split at hres
+      · exact ih hres
+      · rename_i hsk
+        simp at hres
+        obtain ⟨_, _, rfl⟩ := hres
+        simpa using hsk
+
 /-! ### completeness: if any candidate exists the request is routed -/
 
 /-- **lookup_complete.** If some route with a matching path exists under a key that is empty or matches
